@@ -57,13 +57,16 @@ class NewGen:
     def field(self, name, tparams, top, opts):
         ty, dk = self.pick_type(tparams)
         f = {"k": "f", "name": name, "type": ty, "new": False, "def": None, "tagskip": False,
-             "get": False, "set": False, "json": None, "hasdoc": False, "dstyle": self.rng.choice([0, 0, 1, 2, 3])}
+             "get": False, "set": False, "json": None, "hasdoc": False, "dstyle": self.rng.choice([0, 0, 1, 2, 3, 4])}
         if top:
             if opts.get("new") and self.rng.random() < opts["new"]:
                 f["new"] = True
             if dk and self.rng.random() < opts.get("def", 0.25):
                 self.defk += 1
                 f["def"] = str(200 + self.defk % 50) if dk == "int" else '"d%d"' % self.defk
+                if ty == "time.Duration" and self.rng.random() < 0.6:
+                    # an expression that needs an import of the source file
+                    f["def"] = "time.Duration(%d)" % (200 + self.defk % 50)
             elif opts.get("refdefs") and ty in REF_DEFS and self.rng.random() < opts["refdefs"]:
                 # a default that allocates: every instance must get its own
                 self.defk += 1
@@ -141,7 +144,10 @@ class NewGen:
                         fname = self.rng.choice(cand)
                 sm.insert(self.rng.randint(0, len(sm)), {"k": "f", "name": fname, "type": "int", "new": False,
                                                          "def": None, "tagskip": False, "foreign_unexported": True})
-            e = {"k": "e", "decl": {"name": sname, "tparams": [], "typedoc": None, "members": sm, "pkg": "sub"},
+            e = {"k": "e", "decl": {"name": sname, "tparams": [], "typedoc": None, "members": sm, "pkg": "sub",
+                                    # 30%: the foreign package is NAMED like the package generated into (another import path, same
+                                    # package name; imported under the alias `sub`)
+                                    "samename": self.rng.random() < opts.get("samename", 0.0)},
                  "ptr": self.rng.random() < 0.4, "new": opts.get("new") and self.rng.random() < opts["new"], "pkg": "sub"}
             members.insert(self.rng.randint(0, len(members)), e)
         for _ in range(ne):
@@ -355,6 +361,10 @@ def render_struct(s):
                     lines.append("\t// Shoot: " + ";".join(d if d.startswith("def=") else d.upper() for d in dirs))
                 elif st == 3:
                     lines.append("\t// shoot:  " + ";".join(dirs) + ";")
+                elif st == 4:
+                    # one directive per `shoot:` line
+                    for d in dirs:
+                        lines.append("\t// shoot: " + d)
                 else:
                     lines.append("\t// shoot: " + ";".join(dirs))
             elif m.get("hasdoc"):
@@ -413,7 +423,8 @@ def render_sub(structs):
                 subs.append(d)
     if not subs:
         return None
-    return "package sub\n\n" + "\n\n".join(render_struct(d) for d in subs) + "\n"
+    pkgname = "cs" if any(d.get("samename") for d in subs) else "sub"
+    return "package " + pkgname + "\n\n" + "\n\n".join(render_struct(d) for d in subs) + "\n"
 
 
 def case_files(pkg, structs, case_id, fname="t.go"):
@@ -429,17 +440,19 @@ def render_file(pkg, structs, extra_imports=(), case_id="x"):
     decls = []
     seen = set()
     has_sub = False
+    same = False
     for s in structs:
         for d in [s] + embed_decls(s):
             if d.get("pkg") == "sub":
                 has_sub = True
+                same = same or bool(d.get("samename"))
                 continue
             if d["name"] not in seen:
                 seen.add(d["name"])
                 decls.append(d)
     imports = set(extra_imports)
     if has_sub:
-        imports.add('"verifcases/c_%s/sub"' % case_id)
+        imports.add(('sub ' if same else '') + '"verifcases/c_%s/sub"' % case_id)
     def targs_use(d, needle):
         return any(m["k"] == "e" and (any(needle in a for a in (m.get("targs") or [])) or targs_use(m["decl"], needle)) for m in d["members"])
     if any(uses_type(s, "time.") or targs_use(s, "time.") for s in decls):
